@@ -57,15 +57,19 @@ class XmlEventHandler(XmlHandler):
             An instance of the class type representing the parsed content.
         """
         element_ns_map: dict = {}
+        ns_maps: list[dict] = [{}]
         for event, element in context:
             if event == EventType.START:
+                ns_maps.append(
+                    self.merge_parent_namespaces(ns_maps[-1], element_ns_map)
+                )
                 self.parser.start(
                     self.clazz,
                     self.queue,
                     self.objects,
                     element.tag,
                     element.attrib,
-                    self.merge_parent_namespaces(element_ns_map),
+                    ns_maps[-1],
                 )
                 element_ns_map = {}
             elif event == EventType.END:
@@ -76,6 +80,7 @@ class XmlEventHandler(XmlHandler):
                     element.text,
                     element.tail,
                 )
+                ns_maps.pop()
                 element.clear()
             elif event == EventType.START_NS:
                 prefix, uri = element
@@ -88,27 +93,25 @@ class XmlEventHandler(XmlHandler):
 
         return self.objects[-1][1] if self.objects else None
 
-    def merge_parent_namespaces(self, ns_map: dict[str | None, str]) -> dict:
-        """Merge the given prefix-URI map with the parent node map.
+    def merge_parent_namespaces(
+        self, parent_ns_map: dict[str | None, str], ns_map: dict[str | None, str]
+    ) -> dict:
+        """Merge the given prefix-URI map with the parent element map.
 
-        This method also registers new prefixes with the parser.
+        The parent map is the one this handler passed for the parent element,
+        the queued xml nodes don't always keep the map they were given.
 
         Args:
+            parent_ns_map: The parent element namespace prefix-URI map
             ns_map: The current element namespace prefix-URI map
 
         Returns:
             The new merged namespace prefix-URI map.
         """
-        if self.queue:
-            parent_ns_map = self.queue[-1].ns_map
+        if not ns_map:
+            return parent_ns_map
 
-            if not ns_map:
-                return parent_ns_map
-
-            result = parent_ns_map.copy() if parent_ns_map else {}
-        else:
-            result = {}
-
+        result = parent_ns_map.copy()
         for prefix, uri in ns_map.items():
             result[prefix] = uri
 
